@@ -514,6 +514,8 @@ MATRIX_PREFIX = [
                                   'client_id': '', 'k': 1, 'md': []}],  # 3
     ['create_trial', 'o0', 's0', {'state': 'SUCCEEDED', 'final': 1.0,
                                   'client_id': '', 'k': 2, 'md': []}],  # 4
+    ['create_trial', 'o0', 's0', {'state': 'REQUESTED', 'final': None,
+                                  'client_id': '', 'k': 4, 'md': []}],  # 5
     ['update_md', 'o0', 's0', [['study', ':a', 'k', 'v'], [1, ':a', 'k', 'v']]],
 ]
 
@@ -544,9 +546,11 @@ def _matrix_variants(focus):
 
 def enum_matrix(tier):
   cases = []
-  # focus trial: 1 = ACTIVE (own, with a measurement), 3 = queued REQUESTED,
+  # focus trial: 1 = ACTIVE (own, with a measurement), 3 / 5 = queued REQUESTED,
   # 4 = completed (thorough tier only: those pairs are mostly rejections)
-  for focus in ((1, 3, 4) if tier == 'thorough' else (1, 3)):
+  # 5 = the REQUESTED trial SuggestTrials picks first (a second one, 3, is
+  # queued behind it)
+  for focus in ((1, 3, 4, 5) if tier == 'thorough' else (1, 5)):
     vs = _matrix_variants(focus)
     for i in range(len(vs)):
       for j in range(i, len(vs)):
